@@ -143,6 +143,8 @@ HrefEnc(u) == IF u = "" THEN "" ELSE LET c == Ch(u, 1) IN
 (* backslash escapes and character references (of the latter the alphabets spell only &amp; and &lt;), resolved in one pass: what a
    backslash escaped begins no reference, and what a reference gave is not read again *)
 AsciiPunct == {"!", "\"", "#", "$", "%", "&", "'", "(", ")", "*", "+", ",", "-", ".", "/", ":", ";", "<", "=", ">", "?", "@", "[", "\\", "]", "^", "_", "`", "{", "|", "}", "~"}
+RECURSIVE TrailBs(_)
+TrailBs(t) == IF t # "" /\ Ch(t, Len(t)) = "\\" THEN 1 + TrailBs(Take(t, Len(t) - 1)) ELSE 0        \* backslashes at the end of a line
 RECURSIVE Unescape(_)
 Unescape(s) == IF s = "" THEN ""
               ELSE IF Ch(s, 1) = "\\" /\ Ch(s, 2) \in AsciiPunct THEN Ch(s, 2) \o Unescape(Drop(s, 2))
@@ -422,7 +424,7 @@ Parse(d) == ParseFrom(Empty, d, 1)
 ---------------------------------------------------------------------------
 (* alphabets that a configuration file cannot spell (backslash) *)
 R5 == {"[a]: /&amp;amp;", "[a]: /\\\\*", "[a]: /u '\\&lt;'", "[a]: /u '&amp;lt;'", "[a]", "a", "", "\\[a]", "[a] &amp;lt; \\&amp;", "> [a]", "# [a]", "```\\&amp;", "```&lt;"}      \* escapes and references in definitions
-W1 == {"a", "a  ", "a ", "a\\", "===  ", "---  ", "```  ", "# a  ", "> a  ", "- a  ", "", "  ", "# a #  ", "***  "}
+W1 == {"a", "a  ", "a ", "a\\", "a\\\\", "a\\\\\\", "===  ", "---  ", "```  ", "# a  ", "> a  ", "- a  ", "", "  ", "# a #  ", "***  "}
 
 (* the behaviour: one action per line read.  Exhaustive exploration visits every line sequence up to MaxLines (sharded by the
    first line over parallel TLC processes); simulation mode reads random longer documents *)
@@ -478,7 +480,7 @@ HtmlOf(s, n, tight) ==
         lns == EffText(nd)
         TextLineHtml(i) == LET l == lns[i] t == RStrip(l) IN
                            IF i < Len(lns) /\ Len(l) - Len(t) >= 2 THEN InlineHtml(t, AllDefs(s)) \o "<br />"
-                           ELSE IF i < Len(lns) /\ t # "" /\ Ch(t, Len(t)) = "\\" /\ (Len(t) = 1 \/ Ch(t, Len(t) - 1) # "\\")
+                           ELSE IF i < Len(lns) /\ TrailBs(t) % 2 = 1                  \* (an escaped backslash makes no hard line break)
                                 THEN InlineHtml(Take(t, Len(t) - 1), AllDefs(s)) \o "<br />"
                            ELSE InlineHtml(t, AllDefs(s))
         txt == Join([i \in DOMAIN lns |-> TextLineHtml(i)], "\n") IN
